@@ -88,6 +88,35 @@ def all_paths(R, model, args, w, mu, eta, rng, lengths=(1, 2, 7, 1000)):
     return out
 
 
+def legacy_arrays(CM, model, args, w, mu, eta):
+    """the legacy compliance functions with ARRAY compliance / viscosity (what the layered worlds pass): first call, the caller's
+    arrays afterwards, and a second call with the same arrays. Returns (first, second, inputs_changed)"""
+    import numpy as np
+    comp = np.array([1.0 / mu, 1.0 / mu])
+    visc = np.array([eta, eta])
+    keep = (comp.copy(), visc.copy())
+
+    def call():
+        if model == "voigt":
+            return CM.voigt(w, comp, visc, 1.0 / args[0], args[1])
+        if model == "burgers":
+            return CM.burgers(w, comp, visc, 1.0 / args[0], args[1])
+        if model == "andrade":
+            return CM.andrade(w, comp, visc, args[0], args[1])
+        if model == "maxwell":
+            return CM.maxwell(w, comp, visc)
+        if model == "sundberg":
+            return CM.sundberg(w, comp, visc, 1.0 / args[0], args[1], args[2], args[3])
+        return None
+    j1 = call()
+    if j1 is None:
+        return None
+    j1 = np.array(j1, copy=True)
+    changed = not (np.array_equal(comp, keep[0]) and np.array_equal(visc, keep[1]))
+    j2 = np.array(call(), copy=True)
+    return 1.0 / complex(j1[1]), 1.0 / complex(j2[1]), changed
+
+
 def legacy(CM, model, args, w, mu, eta):
     comp = 1.0 / mu
     if model == "elastic":
@@ -207,6 +236,15 @@ def run(tier, seed):
         if relc(lg, base) > 1e-10:
             ck.violation({"clause": "path_identity", "model": model, "path": "legacy_compliance_inverted"},
                          "%s: 1/J of the legacy compliance function = %r, compiled model = %r (rel %.3g)" % (model, lg, base, relc(lg, base)), det)
+        if t % 3 == 0:
+            la = legacy_arrays(CM, model, args or (), w, mu, eta)
+            if la is not None:
+                f1, f2, changed = la
+                if changed:
+                    ck.violation({"clause": "inputs_unmodified", "model": model, "path": "legacy_array"}, "%s: the legacy compliance function modified the caller's compliance / viscosity arrays" % model, det)
+                elif relc(f1, base) > 1e-10 or relc(f2, base) > 1e-10:
+                    ck.violation({"clause": "path_identity", "model": model, "path": "legacy_array"},
+                                 "%s: legacy compliance function with array inputs: first call %r, second call %r, compiled model %r" % (model, f1, f2, base), det)
         if base.real < -1e-13 * abs(base) or base.imag < -1e-13 * abs(base):
             ck.violation({"clause": "passive", "model": model}, "%s: modulus %r has a negative part (energy generation)" % (model, base), det)
         if model in ("maxwell", "burgers", "andrade", "sundberg") and abs(base) > mu * (1 + 1e-12):
